@@ -287,3 +287,31 @@ Definition qinit (x : bits) : qst := fun q => QB (nth q x false).
 (* 2^n times the binary fraction 0.x_q x_{q+1} ... x_{n-1} *)
 Definition qphase (n : nat) (x : bits) (q : nat) : nat :=
   list_sum (map (fun c => b2n (nth c x false) * 2 ^ (n - 1 - (c - q))) (seq q (n - q))).
+
+(* ------------------------------------------------------------------ entangling_layer: the qubit pairs per architecture *)
+Inductive arch := ADiagonal | AEven | AOdd | AShifted | ANextNearest | APyramid | AV | AX.
+
+Definition nn_pairs (n : nat) : list (nat * nat) := map (fun q => (q, S q)) (seq 0 (n - 1)).   (* (q, q+1), q < n-1 *)
+Definition evens (m : nat) : list nat := filter Nat.even (seq 0 m).
+Definition odds (m : nat) : list nat := filter Nat.odd (seq 0 m).
+
+(* closed_boundary adds gate(n-1, 0); it is ignored by pyramid / v / x *)
+Definition ent_pairs (a : arch) (n : nat) (closed : bool) : list (nat * nat) :=
+  let P := nn_pairs n in
+  let bd := if closed then [(n - 1, 0)] else [] in
+  match a with
+  | ADiagonal => P ++ bd
+  | AEven => map (fun q => (q, S q)) (evens (n - 1)) ++ bd
+  | AOdd => map (fun q => (q, S q)) (odds (n - 1)) ++ bd
+  | AShifted => map (fun q => (q, S q)) (evens (n - 1) ++ odds (n - 1)) ++ bd
+  | ANextNearest => map (fun q => (q, S (S q))) (seq 0 (n - 2)) ++ bd
+  | APyramid => P ++ flat_map (fun k => firstn (n - 1 - k) P) (seq 1 (n - 2))
+  | AV => P ++ tl (rev P)
+  | AX => let len := n - 1 in let mid := len / 2 in
+          flat_map (fun i => [nth i P (0, 0); nth (len - 1 - i) P (0, 0)]) (seq 0 mid)
+          ++ [nth mid P (0, 0)]
+          ++ flat_map (fun i => [nth (mid - 1 - i) P (0, 0); nth (len - mid + i) P (0, 0)]) (seq 0 mid)
+  end.
+
+(* ------------------------------------------------------------------ phase_encoder: one rotation per qubit carrying data[q] *)
+Definition phase_gates {D} (data : list D) : list (nat * D) := combine (seq 0 (length data)) data.
